@@ -49,6 +49,9 @@ type Reply struct {
 	Warnings uint16
 	Info     string
 	Raw      [][]byte // when set: payloads sent verbatim, one logical message each (overrides everything else)
+	// capability matrix (servercaps.go)
+	ParamCols    []ColDef // COM_STMT_PREPARE of a scripted statement: parameter definitions (default: anonymous "?" definitions)
+	SessionState []byte   // OK packets under CLIENT_SESSION_TRACK: session state information (sets SERVER_SESSION_STATE_CHANGED)
 }
 
 // Script produces the canned answer of a statement; binary tells whether the binary protocol (COM_STMT_EXECUTE) is used.
@@ -64,6 +67,8 @@ type Server struct {
 	TLS *tls.Config
 	// OnResult may tamper with results before they are sent.
 	OnResult func(sql string, res *fakepg.Result)
+	// Hand, when set, replaces the fixed MySQL-flavour greeting (capability matrix, servercaps.go); Caps is then Hand.WireCaps().
+	Hand *Greeting
 
 	ln          net.Listener
 	mu          sync.Mutex
@@ -252,6 +257,9 @@ type conn struct {
 	out  []byte
 	seq  byte
 	caps uint32
+	ext  uint32 // negotiated MariaDB extended capabilities (Server.Hand)
+	// skipMetadata: the next result set is sent without column definitions (MARIADB_CLIENT_CACHE_METADATA, set per COM_STMT_EXECUTE)
+	skipMetadata bool
 }
 
 func (c *conn) deprecateEOF() bool { return c.caps&CapDeprecateEOF != 0 }
@@ -283,7 +291,7 @@ func (c *conn) flush() error {
 const statusAutocommit = 0x0002
 
 func (c *conn) sendOK(affected, lastID uint64, info string) {
-	c.send("OK", OKPacket(0x00, affected, lastID, statusAutocommit, 0, info))
+	c.send("OK", c.okPacket(0x00, affected, lastID, statusAutocommit, 0, info, nil))
 }
 
 func (c *conn) sendErr(code uint16, state, msg string) { c.send("ERR", ErrPacket(code, state, msg)) }
@@ -296,7 +304,7 @@ func (c *conn) sendEOFAfterDefs() {
 
 func (c *conn) sendEndOfRows(status, warnings uint16) {
 	if c.deprecateEOF() {
-		c.send("OK", OKPacket(0xfe, 0, 0, status, warnings, ""))
+		c.send("OK", c.okPacket(0xfe, 0, 0, status, warnings, "", nil))
 	} else {
 		c.send("EOF", EOFPacket(status, warnings))
 	}
@@ -399,6 +407,7 @@ type prepared struct {
 	nParams   int
 	lastTypes []BoundParam
 	long      map[int][]byte
+	execs     int
 }
 
 func (s *Server) record(r Received) {
@@ -408,11 +417,15 @@ func (s *Server) record(r Received) {
 }
 
 func (c *conn) sendResultSet(cols []ColDef, rows [][]Field, binaryProto bool, status, warnings uint16) {
-	c.send("ColumnCount", PutLenEncInt(nil, uint64(len(cols))))
+	metadata := !c.skipMetadata
+	c.skipMetadata = false
+	c.send("ColumnCount", ColumnCountPacket(len(cols), c.cacheMetadata(), metadata))
 	types := make([]byte, len(cols))
 	for i, cd := range cols {
 		types[i] = cd.Type
-		c.send("ColumnDef", cd.Encode())
+		if metadata {
+			c.send("ColumnDef", cd.EncodeCaps(c.extTypeInfo()))
+		}
 	}
 	c.sendEOFAfterDefs()
 	for _, r := range rows {
@@ -443,7 +456,7 @@ func (c *conn) sendReply(rep *Reply, binaryProto bool) {
 		if st == 0 {
 			st = statusAutocommit
 		}
-		c.send("OK", OKPacket(0x00, rep.Affected, rep.LastID, st, rep.Warnings, rep.Info))
+		c.send("OK", c.okPacket(0x00, rep.Affected, rep.LastID, st, rep.Warnings, rep.Info, rep.SessionState))
 	}
 }
 
@@ -540,6 +553,10 @@ func (s *Server) serve(id int, nc net.Conn) {
 	hs = append(hs, make([]byte, 10)...)
 	hs = append(hs, "ijklmnopqrst\x00"...)
 	hs = append(hs, "mysql_native_password\x00"...)
+	if s.Hand != nil {
+		announced = s.Hand.WireCaps()
+		hs = s.Hand.Encode(uint32(id))
+	}
 	c.send("Handshake", hs)
 	if c.flush() != nil {
 		return
@@ -569,6 +586,12 @@ func (s *Server) serve(id int, nc net.Conn) {
 	}
 	clientCaps := binary.LittleEndian.Uint32(f.Payload)
 	c.caps = clientCaps & s.Caps
+	if s.Hand != nil {
+		c.caps = clientCaps & announced
+		if s.Hand.MariaDB {
+			c.ext = binary.LittleEndian.Uint32(f.Payload[28:]) & s.Hand.ExtCaps
+		}
+	}
 	s.mu.Lock()
 	s.negCaps[id] = c.caps
 	s.mu.Unlock()
@@ -616,6 +639,7 @@ func (s *Server) serve(id int, nc net.Conn) {
 			return
 		}
 		c.seq = f.EndSeq + 1
+		c.skipMetadata = false
 		if len(f.Payload) == 0 {
 			s.record(Received{Conn: id, Seq: f.Seq, EndSeq: f.EndSeq, Packets: f.Packets, Name: "Empty", Payload: f.Payload})
 			c.sendErr(1047, "08S01", "empty command packet")
@@ -637,7 +661,7 @@ func (s *Server) serve(id int, nc net.Conn) {
 			rec.SQL = string(f.Payload[1:])
 			s.record(rec)
 			schema = rec.SQL
-			c.sendOK(0, 0, "")
+			c.sendInitDBOK(schema)
 		case ComStatistics:
 			s.record(rec)
 			c.send("Statistics", []byte("Uptime: 1  Threads: 1  Questions: 1  Slow queries: 0  Opens: 1  Flush tables: 1  Open tables: 1  Queries per second avg: 0.1"))
@@ -674,7 +698,7 @@ func (s *Server) serve(id int, nc net.Conn) {
 			nextID++
 			p := &prepared{id: nextID, sql: sql, long: map[int][]byte{}}
 			last.prepareBegins()
-			var cols []ColDef
+			var cols, paramCols []ColDef
 			if sc != nil {
 				s.record(rec)
 				p.script = sc
@@ -684,6 +708,7 @@ func (s *Server) serve(id int, nc net.Conn) {
 					// scripted statements that fail do so at execution
 				}
 				cols = rep.Cols
+				paramCols = rep.ParamCols
 			} else {
 				tr, st, err := s.parse(sql)
 				rec.Trans = tr
@@ -714,15 +739,23 @@ func (s *Server) serve(id int, nc net.Conn) {
 			c.send("PrepareOK", PrepareOK{StmtID: p.id, Columns: uint16(len(cols)), Params: uint16(p.nParams)}.Encode())
 			if p.nParams > 0 {
 				for i := 0; i < p.nParams; i++ {
-					c.send("ParamDef", ColDef{Name: "?", Charset: 63, Type: TypeVarString, Flags: FlagBinary}.Encode())
+					pd := ColDef{Name: "?", Charset: 63, Type: TypeVarString, Flags: FlagBinary}
+					if i < len(paramCols) {
+						pd = paramCols[i]
+					}
+					c.send("ParamDef", pd.EncodeCaps(c.extTypeInfo()))
 				}
 				c.sendEOFAfterDefs()
 			}
 			if len(cols) > 0 {
 				for _, cd := range cols {
-					c.send("ColumnDef", cd.Encode())
+					c.send("ColumnDef", cd.EncodeCaps(c.extTypeInfo()))
 				}
 				c.sendEOFAfterDefs()
+			}
+		case ComFieldList:
+			if !c.fieldList(&rec) {
+				c.sendErr(1047, "08S01", "Unknown command")
 			}
 		case ComStmtSendLong:
 			// no response
@@ -781,6 +814,8 @@ func (s *Server) serve(id int, nc net.Conn) {
 			s.record(rec)
 			p.lastTypes = ex.Params
 			p.long = map[int][]byte{}
+			p.execs++
+			c.skipMetadata = c.skipMetadataFor(p.execs)
 			if p.script != nil {
 				c.sendReply(p.script(p.sql, true), true)
 				break
